@@ -602,6 +602,26 @@ toy_fp2!(F2P193Cfg, D193, 5, 192);
 toy_fp2!(F2P257Cfg, D257, 3, 256);
 toy_fp2!(F2P769Cfg, D769, 11, 768);
 toy_fp2!(F2P7681Cfg, D7681, 17, 7680);
+// Fp2 over big toy moduli WITHOUT a spare bit (top bit of the top limb set): `two_inv` of QuadExtField::sqrt is
+// computed as (MODULUS + 1) / 2 with add_with_carry + div2 on the raw limbs
+pub struct F2P64Cfg;
+impl Fp2Config for F2P64Cfg {
+    type Fp = DP64;
+    const NONRESIDUE: DP64 = ark_ff::MontFp!("2");
+    const FROBENIUS_COEFF_FP2_C1: &'static [DP64] = &[ark_ff::MontFp!("1"), ark_ff::MontFp!("-1")];
+}
+pub struct F2X3Cfg;
+impl Fp2Config for F2X3Cfg {
+    type Fp = DX3;
+    const NONRESIDUE: DX3 = ark_ff::MontFp!("-1");
+    const FROBENIUS_COEFF_FP2_C1: &'static [DX3] = &[ark_ff::MontFp!("1"), ark_ff::MontFp!("-1")];
+}
+pub struct F2X4Cfg;
+impl Fp2Config for F2X4Cfg {
+    type Fp = DX4;
+    const NONRESIDUE: DX4 = ark_ff::MontFp!("-1");
+    const FROBENIUS_COEFF_FP2_C1: &'static [DX4] = &[ark_ff::MontFp!("1"), ark_ff::MontFp!("-1")];
+}
 // Fp3 = F_p[u]/(u^3 - beta), p = 1 (mod 3)
 toy_fp3!(F3P31B3Cfg, D31, 3, [1, 25, 5], [1, 5, 25], 1, 7447, [30, 0, 0]);
 toy_fp3!(F3P37B2Cfg, D37, 2, [1, 26, 10], [1, 10, 26], 2, 6331, [31, 0, 0]);
@@ -744,11 +764,15 @@ where
     ctx.validate(matches!(row, Some(t) if t.1 == "te" && t.2 == p && t.3 == a && t.4 == d), &format!("{name}: coefficients match CURVE_TABLE"));
     ctx.validate(a != d && a != 0 && d != 0, &format!("{name}: a != d, a d != 0"));
     let fe = |v: u64| P::BaseField::from(v);
+    let oracle_bad = AtomicBool::new(false);
     ctx.sweep(&format!("toy_te_recover/{name}"), p, |y, loc| {
         // all x with a x^2 + y^2 = 1 + d x^2 y^2, by enumeration (ascending)
         let y2 = y * y % p;
         let want: Vec<u64> = (0..p).filter(|x| (a * (x * x % p) + y2) % p == (1 + d * (x * x % p) % p * y2) % p).collect();
-        assert!(want.len() <= 2, "toy TE curve with more than two x for one y");
+        if want.len() > 2 {
+            oracle_bad.store(true, AO::Relaxed); // more than two x for one y: toy parameters wrong (a = d)
+            return;
+        }
         let den_zero = (a + p - d * y2 % p) % p == 0;
         loc.class(match want.len() {
             0 => "recover:none",
@@ -774,6 +798,7 @@ where
             loc.check_at("get_point_from_y_unchecked", gp == wp, || format!("{name}: y={y} greatest={greatest}: got {gp:?} want {wp:?}"));
         }
     });
+    ctx.validate(!oracle_bad.load(AO::Relaxed), &format!("toy_te_recover/{name}: at most two x for every y"));
 }
 
 // ---------------------------------------------------------------------------------------
@@ -880,6 +905,10 @@ fn shipped_prime<F: PrimeField>(ctx: &mut Ctx, group: &str, name: &str, seen: &m
     let half = (&p - 1u32) >> 1usize;
     let pm1 = &p - 1u32;
     let field = name;
+    // oracle preconditions and label bookkeeping are machinery matters: flags, validated after the sweep
+    let oracle_bad = AtomicBool::new(false);
+    let max_rounds_hit = AtomicBool::new(false);
+    let viol_before = ctx.viol_total;
     ctx.sweep(&format!("{group}/{name}"), vals.len() as u64, |i, loc| {
         let x = &vals[i as usize];
         let xf = F::from(x.clone());
@@ -891,7 +920,8 @@ fn shipped_prime<F: PrimeField>(ctx: &mut Ctx, group: &str, name: &str, seen: &m
         } else if e == pm1 {
             -1
         } else {
-            panic!("oracle: modulus of {field} is not prime")
+            oracle_bad.store(true, AO::Relaxed); // x^((p-1)/2) is not +-1: the modulus is not prime
+            return;
         };
         loc.class(match want_sym {
             0 => "zero",
@@ -902,10 +932,17 @@ fn shipped_prime<F: PrimeField>(ctx: &mut Ctx, group: &str, name: &str, seen: &m
             loc.class("3mod4");
         } else if want_sym != 0 {
             match ts_rounds(&pi.f, &vec![x.modpow(&pi.t, &p)], pi.s, &vec![zeta_cfg.clone()]) {
-                None => loc.class_if(want_sym == -1, "ts:early_exit_none"),
+                None => {
+                    loc.class_if(want_sym == -1, "ts:early_exit_none");
+                    // a residue for which the simulation with the CONFIGURED root gives up: no round label
+                    loc.class_if(want_sym == 1, "ts:label_unavailable(configured_root_inconsistent)");
+                }
                 Some(rounds) => {
                     loc.class_if(rounds == 0, "ts:rounds=0");
                     loc.class_if(pi.s >= 2 && rounds == pi.s - 1, "ts:max_rounds");
+                    if pi.s >= 2 && rounds == pi.s - 1 {
+                        max_rounds_hit.store(true, AO::Relaxed);
+                    }
                     loc.class_if(pi.s >= 3 && rounds >= 2 && rounds < pi.s - 1, "ts:intermediate_rounds");
                 }
             }
@@ -918,6 +955,12 @@ fn shipped_prime<F: PrimeField>(ctx: &mut Ctx, group: &str, name: &str, seen: &m
             rb < p && &rb * &rb % &p == *x
         }, &|| x.to_string());
     });
+    ctx.validate(!oracle_bad.load(AO::Relaxed), &format!("{group}/{name}: modulus is prime (x^((p-1)/2) is +-1 for every non-zero alphabet value)"));
+    // per field, not global: the worst case of the Tonelli-Shanks loop was really requested (only asserted when the
+    // sweep itself is clean - with a broken configured root the violations of the sweep are the verdict)
+    if !three_mod_four && pi.s >= 2 && ctx.only.is_none() && ctx.replay.is_none() && ctx.viol_total == viol_before {
+        ctx.validate(max_rounds_hit.load(AO::Relaxed), &format!("{group}/{name}: an input with the maximal number of Tonelli-Shanks rounds (s-1 = {}) is in the alphabet", pi.s - 1));
+    }
 }
 
 enum BigKind {
@@ -959,6 +1002,9 @@ fn ext_elements(ext: &BigExt, pi: &PrimeInfo, g: &BigUint, extra: Vec<BE>, max_d
 fn shipped_ext<F: Field>(ctx: &mut Ctx, name: &str, ext: &BigExt, pi: &PrimeInfo, kind: &BigKind, elems: &[BE]) {
     let field = name;
     let half = (&ext.p + 1u32) >> 1usize;
+    let oracle_bad = AtomicBool::new(false);
+    let max_rounds_hit = AtomicBool::new(false);
+    let viol_before = ctx.viol_total;
     ctx.sweep(&format!("shipped_ext/{name}"), elems.len() as u64, |i, loc| {
         let x = &elems[i as usize];
         let xf: F = ext.to_lib(x);
@@ -983,7 +1029,10 @@ fn shipped_ext<F: Field>(ctx: &mut Ctx, name: &str, ext: &BigExt, pi: &PrimeInfo
             }
             _ => ext.euler(x),
         };
-        assert!(want_sym != 2, "oracle: {field} model is not a field");
+        if want_sym == 2 {
+            oracle_bad.store(true, AO::Relaxed); // x^((q-1)/2) is not +-1: the model is not a field
+            return;
+        }
         loc.class(match want_sym {
             0 => "zero",
             1 => "residue",
@@ -1017,10 +1066,16 @@ fn shipped_ext<F: Field>(ctx: &mut Ctx, name: &str, ext: &BigExt, pi: &PrimeInfo
             BigKind::Ts { s, zeta, .. } => {
                 if let Some(b) = &xt {
                     match ts_rounds(ext, b, *s, zeta) {
-                        None => loc.class_if(want_sym == -1, "ts:early_exit_none"),
+                        None => {
+                            loc.class_if(want_sym == -1, "ts:early_exit_none");
+                            loc.class_if(want_sym == 1, "ts:label_unavailable(configured_root_inconsistent)");
+                        }
                         Some(rounds) => {
                             loc.class_if(rounds == 0, "ts:rounds=0");
                             loc.class_if(*s >= 2 && rounds == *s - 1, "ts:max_rounds");
+                            if *s >= 2 && rounds == *s - 1 {
+                                max_rounds_hit.store(true, AO::Relaxed);
+                            }
                         }
                     }
                 }
@@ -1034,6 +1089,12 @@ fn shipped_ext<F: Field>(ctx: &mut Ctx, name: &str, ext: &BigExt, pi: &PrimeInfo
             rb.iter().all(|c| c < &ext.p) && ext.mul(&rb, &rb) == *x
         }, &|| ext.show(x));
     });
+    ctx.validate(!oracle_bad.load(AO::Relaxed), &format!("shipped_ext/{name}: the model F_p[X]/(X^k - beta) is a field (Euler's criterion gives +-1)"));
+    if let BigKind::Ts { s, .. } = kind {
+        if *s >= 2 && ctx.only.is_none() && ctx.replay.is_none() && ctx.viol_total == viol_before {
+            ctx.validate(max_rounds_hit.load(AO::Relaxed), &format!("shipped_ext/{name}: an input with the maximal number of Tonelli-Shanks rounds (s-1 = {}) is in the element list", *s - 1));
+        }
+    }
 }
 
 fn shipped_fq2<C: Fp2Config>(ctx: &mut Ctx, name: &str) {
@@ -1087,6 +1148,295 @@ fn shipped_fq3<C: Fp3Config>(ctx: &mut Ctx, name: &str) {
 }
 
 // ---------------------------------------------------------------------------------------
+// A: shipped towers above Fq2 / Fq3 (Fq4, Fq6 as 2-over-3: `QuadExtField::sqrt` over an extension base whose own
+// sqrt is the complex method / multi-limb Tonelli-Shanks; Fq6 as 3-over-2 and Fq12: `legendre` only)
+// ---------------------------------------------------------------------------------------
+
+/// generic tower on num-bigint: schoolbook multiplication modulo X^2 - nr / X^3 - nr at every step, elements
+/// flattened in the library's `to_base_prime_field_elements` order (c0 block first, recursively)
+#[derive(Clone, Debug)]
+struct BigTower {
+    p: BigUint,
+    /// (arity, non-residue of the step as an element of the field below), innermost step first
+    steps: Vec<(usize, BE)>,
+    /// deg[l] = degree over F_p after l steps
+    deg: Vec<usize>,
+    euler_exp: Vec<u64>,
+}
+impl BigTower {
+    fn new(p: &BigUint, steps: Vec<(usize, BE)>) -> BigTower {
+        let mut deg = vec![1usize];
+        for (ar, _) in &steps {
+            deg.push(deg.last().unwrap() * ar);
+        }
+        let q = num_traits::pow(p.clone(), *deg.last().unwrap());
+        BigTower { p: p.clone(), steps, deg, euler_exp: ((q - 1u32) >> 1usize).to_u64_digits() }
+    }
+    fn k(&self) -> usize {
+        *self.deg.last().unwrap()
+    }
+    fn addv(&self, a: &[BigUint], b: &[BigUint]) -> BE {
+        a.iter().zip(b).map(|(x, y)| (x + y) % &self.p).collect()
+    }
+    fn negv(&self, a: &[BigUint]) -> BE {
+        a.iter().map(|c| modneg(c, &self.p)).collect()
+    }
+    fn mul_l(&self, l: usize, a: &[BigUint], b: &[BigUint]) -> BE {
+        if l == 0 {
+            return vec![(&a[0] * &b[0]) % &self.p];
+        }
+        let (ar, nr) = &self.steps[l - 1];
+        let d = self.deg[l - 1];
+        let m = |x: &[BigUint], y: &[BigUint]| self.mul_l(l - 1, x, y);
+        let blk = |v: &[BigUint], i: usize| v[i * d..(i + 1) * d].to_vec();
+        let mut out: BE = Vec::with_capacity(ar * d);
+        if *ar == 2 {
+            let (a0, a1, b0, b1) = (blk(a, 0), blk(a, 1), blk(b, 0), blk(b, 1));
+            out.extend(self.addv(&m(&a0, &b0), &m(nr, &m(&a1, &b1))));
+            out.extend(self.addv(&m(&a0, &b1), &m(&a1, &b0)));
+        } else {
+            let (a0, a1, a2, b0, b1, b2) = (blk(a, 0), blk(a, 1), blk(a, 2), blk(b, 0), blk(b, 1), blk(b, 2));
+            out.extend(self.addv(&m(&a0, &b0), &m(nr, &self.addv(&m(&a1, &b2), &m(&a2, &b1)))));
+            out.extend(self.addv(&self.addv(&m(&a0, &b1), &m(&a1, &b0)), &m(nr, &m(&a2, &b2))));
+            out.extend(self.addv(&self.addv(&m(&a0, &b2), &m(&a1, &b1)), &m(&a2, &b0)));
+        }
+        out
+    }
+    fn zero(&self) -> BE {
+        vec![BigUint::zero(); self.k()]
+    }
+    fn is_zero(&self, a: &BE) -> bool {
+        a.iter().all(|c| c.is_zero())
+    }
+    /// Euler's criterion in the whole tower: 0, 1, -1 (2 = not a field)
+    fn euler(&self, a: &BE) -> i8 {
+        if self.is_zero(a) {
+            return 0;
+        }
+        let e = self.pow(a, &self.euler_exp);
+        if e == self.one() {
+            1
+        } else if e == self.negv(&self.one()) {
+            -1
+        } else {
+            2
+        }
+    }
+    /// every step's non-residue is a non-square (quadratic step) / non-cube (cubic step) of the field below,
+    /// by exponentiation in the model of the field below
+    fn steps_irreducible(&self) -> bool {
+        for l in 0..self.steps.len() {
+            let below = BigTower::new(&self.p, self.steps[..l].to_vec());
+            let (ar, nr) = &self.steps[l];
+            let qm1 = num_traits::pow(self.p.clone(), self.deg[l]) - 1u32;
+            let ar_b = BigUint::from(*ar as u32);
+            if !(&qm1 % &ar_b).is_zero() {
+                return false;
+            }
+            let e = below.pow(nr, &(&qm1 / &ar_b).to_u64_digits());
+            if e == below.one() {
+                return false;
+            }
+        }
+        true
+    }
+    fn to_lib<F: Field>(&self, a: &BE) -> F {
+        F::from_base_prime_field_elems(a.iter().map(|c| F::BasePrimeField::from(c.clone()))).expect("extension degree")
+    }
+    fn show(&self, a: &BE) -> String {
+        format!("({})", a.iter().map(|c| c.to_string()).collect::<Vec<_>>().join(", "))
+    }
+}
+impl Alg for BigTower {
+    type El = BE;
+    fn one(&self) -> BE {
+        let mut v = self.zero();
+        v[0] = BigUint::one();
+        v
+    }
+    fn mul(&self, a: &BE, b: &BE) -> BE {
+        self.mul_l(self.steps.len(), a, b)
+    }
+}
+fn be_of<F: Field>(f: &F) -> BE {
+    f.to_base_prime_field_elements().map(|c| from_limbs(c.into_bigint().as_ref())).collect()
+}
+fn tower_fq4<C: Fp4Config>() -> BigTower {
+    let p = from_limbs(<<C::Fp2Config as Fp2Config>::Fp as PrimeField>::MODULUS.as_ref());
+    BigTower::new(&p, vec![(2, be_of(&<C::Fp2Config as Fp2Config>::NONRESIDUE)), (2, be_of(&C::NONRESIDUE))])
+}
+fn tower_fq6_2over3<C: Fp6qConfig>() -> BigTower {
+    let p = from_limbs(<<C::Fp3Config as Fp3Config>::Fp as PrimeField>::MODULUS.as_ref());
+    BigTower::new(&p, vec![(3, be_of(&<C::Fp3Config as Fp3Config>::NONRESIDUE)), (2, be_of(&C::NONRESIDUE))])
+}
+fn tower_fq6_3over2<C: ark_ff::Fp6Config>() -> BigTower {
+    let p = from_limbs(<<C::Fp2Config as Fp2Config>::Fp as PrimeField>::MODULUS.as_ref());
+    BigTower::new(&p, vec![(2, be_of(&<C::Fp2Config as Fp2Config>::NONRESIDUE)), (3, be_of(&C::NONRESIDUE))])
+}
+fn tower_fq12<C: ark_ff::Fp12Config>() -> BigTower {
+    type C6<C> = <C as ark_ff::Fp12Config>::Fp6Config;
+    type C2<C> = <C6<C> as ark_ff::Fp6Config>::Fp2Config;
+    let p = from_limbs(<<C2<C> as Fp2Config>::Fp as PrimeField>::MODULUS.as_ref());
+    BigTower::new(&p, vec![(2, be_of(&<C2<C> as Fp2Config>::NONRESIDUE)), (3, be_of(&<C6<C> as ark_ff::Fp6Config>::NONRESIDUE)), (2, be_of(&C::NONRESIDUE))])
+}
+
+/// how the oracle knows the symbol of a case
+#[derive(Clone, Copy, PartialEq, Debug)]
+enum Known {
+    /// x itself: Euler's criterion x^((q-1)/2) in the tower model
+    Euler,
+    /// y^2 for a listed y
+    Square,
+    /// n * y^2 for a listed y != 0 and the non-residue n (validated once with Euler's criterion)
+    NonSquare,
+}
+
+/// structured elements of a shipped tower: 0, 1, -1, 2, embedded prime-field values, every unit vector ("pure"
+/// multiples of the tower generators), generic multiples of some, elements of the subfield below the top step,
+/// pure top-generator multiples, fully generic elements
+fn tower_structured(tw: &BigTower, g: &BigUint, raw_limit: usize) -> Vec<BE> {
+    let p = &tw.p;
+    let k = tw.k();
+    let d = tw.deg[tw.steps.len() - 1]; // degree of the field below the top step
+    let pi = PrimeInfo::new(p);
+    let gen = pi.generic();
+    let embed = |c: &BigUint| {
+        let mut v = tw.zero();
+        v[0] = c % p;
+        v
+    };
+    let mut out: Vec<BE> = vec![tw.zero(), tw.one(), tw.negv(&tw.one()), embed(&BigUint::from(2u32)), embed(g), embed(&pi.qnr), embed(&gen), embed(&((p - 1u32) >> 1usize))];
+    for j in 1..k {
+        let mut v = tw.zero();
+        v[j] = BigUint::one();
+        out.push(v);
+    }
+    for j in [1, d, k - 1] {
+        let mut v = tw.zero();
+        v[j] = gen.clone();
+        out.push(v);
+    }
+    // subfield below the top step: c1 (and c2) = 0, c0 generic
+    let mut sub = tw.zero();
+    for j in 0..d {
+        sub[j] = (&gen * BigUint::from(j as u32 + 2) + BigUint::from(j as u32 + 1)) % p;
+    }
+    out.push(sub.clone());
+    // c0 = 0, c1 generic
+    let mut top = tw.zero();
+    for j in 0..d {
+        top[d + j] = sub[j].clone();
+    }
+    out.push(top);
+    // every coordinate generic; and a second one
+    let ge: BE = (0..k).map(|j| (&gen * BigUint::from(j as u32 + 1) + BigUint::from(j as u32)) % p).collect();
+    out.push(tw.mul(&ge, &sub));
+    out.push(ge);
+    let mut seen: Vec<BE> = Vec::new();
+    for v in out {
+        if !seen.contains(&v) && seen.len() < raw_limit {
+            seen.push(v);
+        }
+    }
+    seen
+}
+
+/// `has_sqrt`: the tower has a square-root algorithm (quadratic top step over a base with sqrt); otherwise only
+/// `legendre` is compared.  `raw_limit`: number of structured elements used.
+fn shipped_tower<F: Field>(ctx: &mut Ctx, name: &str, tw: &BigTower, has_sqrt: bool, raw_limit: usize) {
+    let k = tw.k();
+    ctx.validate(F::extension_degree() as usize == k, &format!("{name}: extension degree {k}"));
+    ctx.validate(tw.steps_irreducible(), &format!("{name}: every step's NONRESIDUE is a non-square / non-cube of the field below (precondition of the tower oracle)"));
+    let d = tw.deg[tw.steps.len() - 1];
+    let g = from_limbs(<F::BasePrimeField as ark_ff::FftField>::GENERATOR.into_bigint().as_ref());
+    let raw = tower_structured(tw, &g, raw_limit);
+    // a non-residue of the whole tower: first candidate with Euler symbol -1 (top generator, top generator + 1, ...)
+    let mut cands: Vec<BE> = Vec::new();
+    for c in 0u32..6 {
+        let mut v = tw.zero();
+        v[d] = BigUint::one();
+        v[0] = BigUint::from(c);
+        cands.push(v);
+    }
+    cands.extend(raw.iter().filter(|v| !tw.is_zero(v)).cloned());
+    let nonres = cands.into_iter().take(12).find(|c| tw.euler(c) == -1);
+    ctx.validate(nonres.is_some(), &format!("{name}: a non-residue of the tower among the fixed candidates (Euler's criterion)"));
+    let Some(nonres) = nonres else { return };
+    let mut cases: Vec<(BE, Known)> = Vec::new();
+    let push = |v: BE, kn: Known, cases: &mut Vec<(BE, Known)>| {
+        match cases.iter_mut().find(|c| c.0 == v) {
+            // a value known by construction keeps that label
+            Some(c) => {
+                if c.1 == Known::Euler {
+                    c.1 = kn;
+                }
+            }
+            None => cases.push((v, kn)),
+        }
+    };
+    for y in &raw {
+        let y2 = tw.mul(y, y);
+        push(y2.clone(), Known::Square, &mut cases);
+        if !tw.is_zero(y) {
+            push(tw.mul(&nonres, &y2), Known::NonSquare, &mut cases);
+        }
+    }
+    for y in &raw {
+        push(y.clone(), Known::Euler, &mut cases);
+    }
+    let oracle_bad = AtomicBool::new(false);
+    let field = name;
+    ctx.bound(&format!("shipped_tower/{name}"), format!("{} structured elements y (0, 1, -1, 2, embedded prime-field values, pure generator multiples, subfield and top-only elements, generic), y itself (Euler's criterion), y^2 and n*y^2 for the non-residue n = {}: {} cases; {}", raw.len(), tw.show(&nonres), cases.len(), if has_sqrt { "sqrt, sqrt_in_place, legendre" } else { "legendre only (no square-root algorithm)" }));
+    ctx.sweep(&format!("shipped_tower/{name}"), cases.len() as u64, |i, loc| {
+        let (x, kn) = &cases[i as usize];
+        let xf: F = tw.to_lib(x);
+        let want_sym: i8 = match kn {
+            Known::Square => {
+                if tw.is_zero(x) {
+                    0
+                } else {
+                    1
+                }
+            }
+            Known::NonSquare => -1,
+            Known::Euler => tw.euler(x),
+        };
+        if want_sym == 2 {
+            oracle_bad.store(true, AO::Relaxed);
+            return;
+        }
+        loc.class(match want_sym {
+            0 => "zero",
+            1 => "residue",
+            _ => "nonresidue",
+        });
+        loc.class(match kn {
+            Known::Euler => "tower:symbol_by_euler_criterion",
+            Known::Square => "tower:square_by_construction",
+            Known::NonSquare => "tower:nonresidue_times_square",
+        });
+        loc.class(if has_sqrt { "tower:quadratic_over_extension_base(sqrt)" } else { "tower:shipped_without_sqrt(legendre)" });
+        loc.class_if(x[1..].iter().all(|c| c.is_zero()), "ext:embedded_base_field_element");
+        let top_c1_zero = x[d..].iter().all(|c| c.is_zero());
+        loc.class_if(top_c1_zero, "tower:top_c1=0(subfield_element)");
+        loc.class_if(!top_c1_zero && x[..d].iter().all(|c| c.is_zero()), "tower:top_c0=0(pure_generator_multiple)");
+        if loc.sampling() {
+            loc.sample(format!("{field}: x={} symbol={} ({kn:?})", tw.show(x), sym_name(want_sym)));
+        }
+        if has_sqrt {
+            check_elem::<F>(loc, field, &xf, want_sym, |r| {
+                let rb = be_of(r);
+                rb.len() == k && rb.iter().all(|c| c < &tw.p) && tw.mul(&rb, &rb) == *x
+            }, &|| tw.show(x));
+        } else {
+            let l = xf.legendre();
+            loc.check_at("legendre", sym_code(&l) == want_sym, || format!("{field}: legendre({}) = {l:?}, want {} ({kn:?})", tw.show(x), sym_name(want_sym)));
+        }
+    });
+    ctx.validate(!oracle_bad.load(AO::Relaxed), &format!("shipped_tower/{name}: Euler's criterion gives +-1 in the tower model"));
+}
+
+// ---------------------------------------------------------------------------------------
 // A: coordinate recovery on shipped curves
 // ---------------------------------------------------------------------------------------
 
@@ -1120,12 +1470,17 @@ fn shipped_sw_recover<P: sw::SWCurveConfig>(ctx: &mut Ctx, name: &str, ext: &Big
     let a = ext.from_lib(&P::COEFF_A);
     let b = ext.from_lib(&P::COEFF_B);
     let xs = small_axis(ext, &[ext.from_lib(&P::GENERATOR.x)]);
+    let oracle_bad = AtomicBool::new(false);
     ctx.sweep(&format!("shipped_sw_recover/{name}"), xs.len() as u64, |i, loc| {
         let x = &xs[i as usize];
         let xf: P::BaseField = ext.to_lib(x);
         let rhs = ext.add(&ext.add(&ext.mul(&ext.mul(x, x), x), &ext.mul(&a, x)), &b);
         let sym = ext.euler(&rhs);
-        assert!(sym != 2);
+        if sym == 2 {
+            oracle_bad.store(true, AO::Relaxed);
+            return;
+        }
+        loc.class_if(ext.k > 1, "recover:extension_base_field");
         loc.class(match sym {
             -1 => "recover:none",
             0 => "recover:double_root",
@@ -1152,6 +1507,7 @@ fn shipped_sw_recover<P: sw::SWCurveConfig>(ctx: &mut Ctx, name: &str, ext: &Big
             }
         }
     });
+    ctx.validate(!oracle_bad.load(AO::Relaxed), &format!("shipped_sw_recover/{name}: the base-field model is a field (Euler's criterion gives +-1)"));
 }
 
 fn shipped_te_recover<P: te::TECurveConfig>(ctx: &mut Ctx, name: &str)
@@ -1171,6 +1527,7 @@ where
         ys.push(vec![y0]);
         ys = dedup_sorted(ys);
     }
+    let oracle_bad = AtomicBool::new(false);
     ctx.sweep(&format!("shipped_te_recover/{name}"), ys.len() as u64, |i, loc| {
         let y = &ys[i as usize][0];
         let yf = P::BaseField::from(y.clone());
@@ -1179,7 +1536,10 @@ where
         let den = modsub(&a, &(&d * &y2 % &p), &p);
         // x^2 (a - d y^2) = 1 - y^2
         let x2: Option<BigUint> = if den.is_zero() {
-            assert!(!num.is_zero(), "a = d");
+            if num.is_zero() {
+                oracle_bad.store(true, AO::Relaxed); // a = d: not a twisted Edwards curve
+                return;
+            }
             loc.class("te:denominator_zero");
             None
         } else {
@@ -1215,6 +1575,7 @@ where
             }
         }
     });
+    ctx.validate(!oracle_bad.load(AO::Relaxed), &format!("shipped_te_recover/{name}: a != d"));
 }
 
 // ---------------------------------------------------------------------------------------
@@ -1344,6 +1705,14 @@ fn main() {
         "recover:base_3mod4",
         "recover:base_tonelli_shanks",
         "te:denominator_zero",
+        "tower:quadratic_over_extension_base(sqrt)",
+        "tower:shipped_without_sqrt(legendre)",
+        "tower:square_by_construction",
+        "tower:nonresidue_times_square",
+        "tower:symbol_by_euler_criterion",
+        "tower:top_c1=0(subfield_element)",
+        "tower:top_c0=0(pure_generator_multiple)",
+        "recover:extension_base_field",
     ]);
     ctx.assume("oracle (toy): u64 arithmetic of F_p[X]/(X^k - beta); squares = enumerated set {y^2}; Legendre symbol = x^((q-1)/2) by square-and-multiply on the model; reported roots are squared by the model");
     ctx.assume("oracle (shipped): num-bigint; Euler's criterion by modpow / schoolbook F_p[X]/(X^k - beta) exponentiation; reported roots are squared in num-bigint; conversions F::from(integer) / into_bigint are trusted (C01)");
@@ -1355,6 +1724,7 @@ fn main() {
     ctx.bound("toy_fp4", "all p^4 elements, p in {5,13,17,29} (NONRESIDUE=(0,1) forces p = 1 mod 4)");
     ctx.bound("toy_fp6_2over3", if ctx.quick() { "all 7^6 elements" } else { "all p^6 elements, p in {7,13}" });
     ctx.bound("toy_curves", "every x (SW) / y (TE) of the base field of all 16 + 5 toy curves, both values of `greatest`");
+    ctx.assume("oracle (shipped towers above Fq2/Fq3): schoolbook tower arithmetic on num-bigint (every step's non-residue validated as a non-square / non-cube of the field below); symbol known by construction for y^2 and n*y^2 (n: a tower element whose Euler symbol x^((q-1)/2) = -1 was computed once in the model), Euler's criterion in the model for the structured y themselves; reported roots are squared in the model");
     ctx.bound("big_toy_prime", "same alphabet as shipped prime fields on the big toy moduli of gen_fields (M61 .. X13, Goldilocks, 2^255-19), derived and hand-written");
     ctx.bound("shipped", "alphabet {0,1,2,3,4,p-1,p-2,(p+-1)/2,g,g^2,generic,qnr, omega_i, omega_i*g, omega_i*4 (i<=s)} with squares and qnr-multiples, plus inputs with t-th power zeta^2; Fq2: {0,1,-1,2,g}^2; Fq3: {0,1,-1,2,g}^3 (quick: at most 2 non-zero coordinates); their squares, embedded base alphabet, a generic element with its square and cube, 2-power roots of unity and products with a generic square, inputs with t-th power zeta^2");
 
@@ -1410,6 +1780,35 @@ fn main() {
         shipped_fq2::<ark_test_curves::bls12_381::Fq2Config>(&mut ctx, "test::bls12_381::Fq2");
         shipped_fq3::<ark_test_curves::mnt6_753::Fq3Config>(&mut ctx, "test::mnt6_753::Fq3");
     }
+    // A: Fp2 over big toy moduli whose top limb has no spare bit (64-bit p = 1 mod 4; 192- and 256-bit p = 3 mod 4)
+    for (p, top_bit) in [
+        (from_limbs(<DP64 as PrimeField>::MODULUS.as_ref()), 64u64),
+        (from_limbs(<DX3 as PrimeField>::MODULUS.as_ref()), 192),
+        (from_limbs(<DX4 as PrimeField>::MODULUS.as_ref()), 256),
+    ] {
+        ctx.validate(p.bits() == top_bit, &format!("toy modulus of {top_bit} bits has the top bit of its top limb set"));
+    }
+    shipped_fq2::<F2P64Cfg>(&mut ctx, "toy::Fp2_over_DP64(no_spare_bit)");
+    shipped_fq2::<F2X3Cfg>(&mut ctx, "toy::Fp2_over_DX3(no_spare_bit)");
+    shipped_fq2::<F2X4Cfg>(&mut ctx, "toy::Fp2_over_DX4(no_spare_bit)");
+
+    // A: shipped towers above Fq2 / Fq3
+    shipped_tower::<ark_mnt4_298::Fq4>(&mut ctx, "mnt4_298::Fq4", &tower_fq4::<ark_mnt4_298::Fq4Config>(), true, 64);
+    shipped_tower::<ark_mnt6_298::Fq6>(&mut ctx, "mnt6_298::Fq6", &tower_fq6_2over3::<ark_mnt6_298::Fq6Config>(), true, 64);
+    shipped_tower::<ark_bw6_761::Fq6>(&mut ctx, "bw6_761::Fq6", &tower_fq6_2over3::<ark_bw6_761::Fq6Config>(), true, 64);
+    shipped_tower::<ark_bls12_381::Fq6>(&mut ctx, "bls12_381::Fq6(3over2)", &tower_fq6_3over2::<ark_bls12_381::Fq6Config>(), false, 64);
+    let lim12 = ctx.t(12, 64);
+    shipped_tower::<ark_bls12_381::Fq12>(&mut ctx, "bls12_381::Fq12", &tower_fq12::<ark_bls12_381::Fq12Config>(), false, lim12);
+    if ctx.thorough() {
+        shipped_tower::<ark_mnt4_753::Fq4>(&mut ctx, "mnt4_753::Fq4", &tower_fq4::<ark_mnt4_753::Fq4Config>(), true, 64);
+        shipped_tower::<ark_mnt6_753::Fq6>(&mut ctx, "mnt6_753::Fq6", &tower_fq6_2over3::<ark_mnt6_753::Fq6Config>(), true, 64);
+        shipped_tower::<ark_bw6_767::Fq6>(&mut ctx, "bw6_767::Fq6", &tower_fq6_2over3::<ark_bw6_767::Fq6Config>(), true, 64);
+        shipped_tower::<ark_cp6_782::Fq6>(&mut ctx, "cp6_782::Fq6", &tower_fq6_2over3::<ark_cp6_782::Fq6Config>(), true, 64);
+        shipped_tower::<ark_bn254::Fq6>(&mut ctx, "bn254::Fq6(3over2)", &tower_fq6_3over2::<ark_bn254::Fq6Config>(), false, 64);
+        shipped_tower::<ark_bn254::Fq12>(&mut ctx, "bn254::Fq12", &tower_fq12::<ark_bn254::Fq12Config>(), false, 64);
+        shipped_tower::<ark_bls12_377::Fq6>(&mut ctx, "bls12_377::Fq6(3over2)", &tower_fq6_3over2::<ark_bls12_377::Fq6Config>(), false, 64);
+        shipped_tower::<ark_bls12_377::Fq12>(&mut ctx, "bls12_377::Fq12", &tower_fq12::<ark_bls12_377::Fq12Config>(), false, 64);
+    }
 
     // A: coordinate recovery on shipped curves
     shipped_sw_recover::<ark_bls12_381::g1::Config>(&mut ctx, "bls12_381::g1", &prime_ext::<ark_bls12_381::Fq>());
@@ -1420,6 +1819,17 @@ fn main() {
         let p = from_limbs(<ark_bls12_381::Fq as PrimeField>::MODULUS.as_ref());
         let beta = from_limbs(<ark_bls12_381::Fq2Config as Fp2Config>::NONRESIDUE.into_bigint().as_ref());
         shipped_sw_recover::<ark_bls12_381::g2::Config>(&mut ctx, "bls12_381::g2", &BigExt::new(&p, 2, &beta));
+    }
+    {
+        let fq2 = |p: &[u64], beta: BigUint| BigExt::new(&from_limbs(p), 2, &beta);
+        let big = |l: &[u64]| from_limbs(l);
+        shipped_sw_recover::<ark_bn254::g2::Config>(&mut ctx, "bn254::g2", &fq2(<ark_bn254::Fq as PrimeField>::MODULUS.as_ref(), big(<ark_bn254::Fq2Config as Fp2Config>::NONRESIDUE.into_bigint().as_ref())));
+        shipped_sw_recover::<ark_bls12_377::g2::Config>(&mut ctx, "bls12_377::g2", &fq2(<ark_bls12_377::Fq as PrimeField>::MODULUS.as_ref(), big(<ark_bls12_377::Fq2Config as Fp2Config>::NONRESIDUE.into_bigint().as_ref())));
+        shipped_sw_recover::<ark_mnt4_298::g2::Config>(&mut ctx, "mnt4_298::g2", &fq2(<ark_mnt4_298::Fq as PrimeField>::MODULUS.as_ref(), big(<ark_mnt4_298::Fq2Config as Fp2Config>::NONRESIDUE.into_bigint().as_ref())));
+        // cubic base field: the two roots are ordered through CubicExtField::cmp
+        let p6 = from_limbs(<ark_mnt6_298::Fq as PrimeField>::MODULUS.as_ref());
+        let beta6 = big(<ark_mnt6_298::Fq3Config as Fp3Config>::NONRESIDUE.into_bigint().as_ref());
+        shipped_sw_recover::<ark_mnt6_298::g2::Config>(&mut ctx, "mnt6_298::g2", &BigExt::new(&p6, 3, &beta6));
     }
     shipped_te_recover::<ark_ed_on_bls12_381::JubjubConfig>(&mut ctx, "ed_on_bls12_381");
     shipped_te_recover::<ark_ed_on_bls12_381_bandersnatch::BandersnatchConfig>(&mut ctx, "bandersnatch(te)");
